@@ -408,14 +408,14 @@ func (c *Contracts) loadFile(path, pkg string, trusted bool) error {
 			}
 			// at <anchor words> (ghost <lhs> = <expr> | assert <expr> | assume <expr>)
 			if lm := regexp.MustCompile(`^(.*?)\s+label\s+([A-Za-z_][A-Za-z0-9_]*)$`).FindStringSubmatch(rc.text); lm != nil {
-				curF.Ats = append(curF.Ats, AtSpec{Anchor: strings.Join(strings.Fields(lm[1]), " "), Kind: "label", Target: lm[2]})
+				curF.Ats = append(curF.Ats, AtSpec{Anchor: strings.ReplaceAll(strings.Join(strings.Fields(lm[1]), " "), " #", "#"), Kind: "label", Target: lm[2]})
 				continue
 			}
 			m := regexp.MustCompile(`^(.*?)\s+(ghost|assert|assume)\s+(.*)$`).FindStringSubmatch(rc.text)
 			if m == nil {
 				return fmt.Errorf("%s:%d: bad at clause", path, rc.line)
 			}
-			as := AtSpec{Anchor: strings.Join(strings.Fields(m[1]), " "), Kind: m[2]}
+			as := AtSpec{Anchor: strings.ReplaceAll(strings.Join(strings.Fields(m[1]), " "), " #", "#"), Kind: m[2]}
 			rest := m[3]
 			if as.Kind == "ghost" {
 				i := indexTopAssign(rest)
